@@ -91,7 +91,7 @@ impl<const N: usize> NodeVersions<N> {
                 // This means we can no longer trust that this key is in fact still valid.
                 if &ts < entry.get() {
                     self.compute_safe_last_stamp(ts.node());
-                    return false;
+                    return !self.is_ts_before_last_observed_event(ts);
                 }
 
                 entry.insert(ts);
